@@ -293,7 +293,7 @@ func TestVerifRpcGuard(t *testing.T) {
 					args = append(args, argFor(p, typ, i))
 				}
 				before := atomic.LoadUint64(&keystore.VerifSignCount)
-				cctx, ccancel := context.WithTimeout(ctx, 4*time.Second)
+				cctx, ccancel := context.WithTimeout(ctx, 15*time.Second)
 				var result json.RawMessage
 				err := clients[tr].CallContext(cctx, &result, m.Name, args...)
 				ccancel()
